@@ -174,7 +174,7 @@ def make_env(params, pre, memo, specfuns, universe, extra=None):
         "is_bool": lambda v: isinstance(v, bool), "is_none": lambda v: v is None,
         "is_real": lambda v: isinstance(v, float), "is_ref": lambda v: isinstance(v, (dict, list)),
         "as_str": lambda v: v, "as_int": lambda v: v, "as_bool": lambda v: v, "as_real": lambda v: v,
-        "as_row": lambda v: v, "as_list": lambda v, t=None: v, "truthy": bool,
+        "as_row": lambda v: v, "as_comp": lambda v: v, "as_list": lambda v, t=None: v, "truthy": bool,
         "allocated": lambda x: True, "fresh": lambda x: True, "allocated_before": lambda x: True,
         "__pre__": pre, "__tr__": tr, "__same__": same,
     }
